@@ -90,9 +90,9 @@ Proof.
   injection H as <-. split; [|reflexivity]. exists evs. cbn. repeat split; try assumption; try lia.
 Qed.
 
-Lemma wp_law_eof s : wp_rep s [] -> exists s', wp_get fparse s = (s', Err) /\ wp_rep s' [].
+Lemma wp_law_eof s : wp_rep s [] -> exists s', wp_get fparse s = (s', Ok None) /\ wp_rep s' [].
 Proof.
-  intros (evs & Hok & Hb & Hr & Hl). unfold wp_get.
+  intros (evs & Hok & Hb & Hr & Hl). unfold wp_get, wp_get_v.
   destruct (wp_read s) eqn:R; [discriminate|].
   cbn [app] in Hl. destruct evs; [|discriminate]. cbn in Hr.
   assert (wp_recs s <=? wp_cur s = true) as -> by (apply N.leb_le; lia).
@@ -100,9 +100,9 @@ Proof.
 Qed.
 
 Lemma wp_law_get s r l : wp_rep s (r :: l) ->
-  exists s', wp_get fparse s = (s', Ok r) /\ wp_rep s' (r :: l) /\ wp_rep (wp_next s') l.
+  exists s', wp_get fparse s = (s', Ok (Some r)) /\ wp_rep s' (r :: l) /\ wp_rep (wp_next s') l.
 Proof.
-  intros (evs & Hok & Hb & Hr & Hl). unfold wp_get.
+  intros (evs & Hok & Hb & Hr & Hl). unfold wp_get, wp_get_v.
   destruct (wp_read s) eqn:R.
   - cbn [app] in Hl. injection Hl as -> ->.
     exists s. split; [reflexivity|]. split.
